@@ -15,3 +15,14 @@ Theorem C19_printed_messages_do_not_depend_on_the_child :
   o_stdout _ o1 = o_stdout _ o2.
 Proof. intros RX sample next_msg flush Hn. exact (stdout_independent_of_child RX sample next_msg flush Hn). Qed.
 Print Assumptions C19_printed_messages_do_not_depend_on_the_child.
+
+(** the same with the receiver MODEL plugged in (its iter_messages().next(), given enough calls,
+    satisfies the iterator contract: None only when the source is exhausted and nothing is queued,
+    and then idempotent); [pad] = the items the DSP makes of flush()'s zero padding *)
+From Sameold Require Import Model.Receiver.
+Theorem C19_samedec_over_the_receiver_model : forall c pad f1 f2 hc1 hc2 ok1 ok2 s inp o1 o2,
+  run rx item (rxm_next c) (rxm_flush c pad) f1 false hc1 ok1 s inp = Some o1 ->
+  run rx item (rxm_next c) (rxm_flush c pad) f2 false hc2 ok2 s inp = Some o2 ->
+  o_stdout _ o1 = o_stdout _ o2.
+Proof. exact samedec_over_receiver_stdout. Qed.
+Print Assumptions C19_samedec_over_the_receiver_model.
